@@ -695,29 +695,54 @@ pub fn check_arena<P: TP, V: Val>(side: &mut Side<P, V>, env: &mut Env) -> R {
     let a = side.map.verif_arena();
     let n = a.arena_len;
     ensure!(n >= 1, "C16", "C16:arena-empty", "arena has no root slot");
+    // depth-first walk with colours: 0 = unseen, 1 = on the current path, 2 = done
+    let mut colour = vec![0u8; n];
     let mut reach = vec![false; n];
-    let mut stack = vec![0usize];
     let mut nreach = 0usize;
-    while let Some(i) = stack.pop() {
-        ensure!(i < n, "C16", "C16:link-out-of-range", "step {}: link to slot {} >= arena length {}", env.step, i, n);
-        ensure!(
-            !reach[i],
+    let mut shared: Option<usize> = None;
+    // stack of (slot, next child to look at)
+    let mut stack: Vec<(usize, u8)> = vec![(0, 0)];
+    colour[0] = 1;
+    reach[0] = true;
+    nreach += 1;
+    while let Some((i, c)) = stack.pop() {
+        if c >= 2 {
+            colour[i] = 2;
+            continue;
+        }
+        stack.push((i, c + 1));
+        let (l, r, _) = a.slots[i];
+        let child = if c == 0 { l } else { r };
+        if let Some(ch) = child {
+            ensure!(ch < n, "C16", "C16:link-out-of-range", "step {}: link to slot {} >= arena length {}", env.step, ch, n);
+            match colour[ch] {
+                0 => {
+                    colour[ch] = 1;
+                    reach[ch] = true;
+                    nreach += 1;
+                    stack.push((ch, 0));
+                }
+                1 => {
+                    return fail(
+                        "C16",
+                        "C16:cycle",
+                        format!("step {} map {}: the links form a cycle through slot {}", env.step, side.name, ch),
+                    )
+                }
+                _ => {
+                    if shared.is_none() {
+                        shared = Some(ch);
+                    }
+                }
+            }
+        }
+    }
+    if let Some(ch) = shared {
+        return fail(
             "C16",
             "C16:slot-reached-twice",
-            "step {} map {}: slot {} is reachable along two paths",
-            env.step,
-            side.name,
-            i
+            format!("step {} map {}: slot {} is reachable along two paths", env.step, side.name, ch),
         );
-        reach[i] = true;
-        nreach += 1;
-        let (l, r, _) = a.slots[i];
-        if let Some(l) = l {
-            stack.push(l);
-        }
-        if let Some(r) = r {
-            stack.push(r);
-        }
     }
     let mut free = vec![false; n];
     for &f in &a.free {
@@ -792,16 +817,37 @@ pub fn check_arena<P: TP, V: Val>(side: &mut Side<P, V>, env: &mut Env) -> R {
 
 /// Run every observer in focus on one side after a step.
 pub fn observe<P: TP, V: Val>(side: &mut Side<P, V>, env: &mut Env, other_model: Option<&Model>) -> R {
-    check_contents(side, env)?;
+    // Structural sanity (always). A node that is reachable along two paths (slot reuse after a stale
+    // link, cycle) makes later crate calls loop or allocate without bound, so such a case must end at
+    // this step - but only after this step's observers had their chance to see the symptom.
+    let sanity = check_arena(side, env);
+    if let Err(f) = &sanity {
+        if f.sig == "C16:cycle" || f.sig == "C16:link-out-of-range" {
+            // not even iteration terminates on such a structure
+            return sanity;
+        }
+    }
+    let r = observe_inner(side, env, other_model);
+    r?;
+    if let Err(f) = sanity {
+        let dangerous = f.sig == "C16:slot-reached-twice" || f.sig == "C16:link-out-of-range" || f.sig == "C16:free-out-of-range";
+        if dangerous || env.focus.has(16) {
+            return Err(f);
+        }
+        env.ev("arena_inconsistent_case_continues");
+    }
+    Ok(())
+}
+
+fn observe_inner<P: TP, V: Val>(side: &mut Side<P, V>, env: &mut Env, other_model: Option<&Model>) -> R {
     let f = env.focus;
+    // len() is compared with what iteration actually yields (no model involved), so it comes first
     if f.has(4) {
         check_len(side, env)?;
     }
+    check_contents(side, env)?;
     if f.has(15) {
         check_shape(side, env)?;
-    }
-    if f.has(16) {
-        check_arena(side, env)?;
     }
     if f.has(3) {
         let salt = env.step as u64 * 31 + side.model.len() as u64;
